@@ -117,6 +117,11 @@ fn gen_x(r: &mut Sm64, n: usize, p: usize, fam: u64) -> Vec<Vec<f64>> {
                 cols[k] = vec![2.5; n];
             }
         }
+        7 => {
+            // one informative column of tiny scale: squared norm below f64::EPSILON
+            let j = r.below(p as u64) as usize;
+            for v in cols[j].iter_mut() { *v *= 1e-9; }
+        }
         4 => {
             // collinear design: duplicate or sum of two columns (p >= 2 guaranteed by the caller)
             if p >= 3 && r.chance(0.5) {
@@ -386,6 +391,10 @@ impl Ctx {
             if d.centred() { "centred" } else { "uncentred" }.into(),
             format!("fam_{}", d.fam),
         ];
+        // a non-zero feature column whose squared norm is <= f64::EPSILON (the solvers skip it: approx::abs_diff_eq!(norm, 0))
+        if kind != K_OLS && (0..d.p()).any(|j| { let q: f64 = d.x.iter().map(|row| row[j] * row[j]).sum(); q > 0.0 && q <= f64::EPSILON }) {
+            t.push("tiny_column".into());
+        }
         for e in extra { t.push(e.to_string()); }
         t
     }
@@ -611,6 +620,19 @@ fn main() {
         let mut q = gen_queries(&mut r, &d);
         for row in q.iter_mut() { for v in row.iter_mut() { *v = (*v as f32) as f64; } }
         cx.emit_fit(K_ENET32, &d, &h, &q, "enet_f32", true);
+    }
+
+    // ---- stream G: a feature column of scale 1e-9 (squared norm below f64::EPSILON) that carries signal ----
+    let ng = if thorough { 60 } else { 8 };
+    for i in 0..ng {
+        let mut r = rng.fork();
+        let t = if i % 2 == 0 { 1 } else { 2 };
+        let d = gen_data(&mut r, 7, t, maxn, None);
+        let mut h = pick_hp(&mut r, 7, true, thorough);
+        h.pen = *r.pick(&[0.0, 1e-3]);
+        h.l1r = *r.pick(&[0.0, 0.5]);
+        let q = gen_queries(&mut r, &d);
+        cx.emit_fit(if t == 1 { K_ENET } else { K_MTL }, &d, &h, &q, "tiny_column", true);
     }
 
     // ---- stream D: ordinary least squares (full column rank), with the augmented-design differential ----
